@@ -1,12 +1,12 @@
 SPECIFICATION MCSpec
 CONSTANTS
   Relax = {}
-  Mode = "honest"
-  MaxBlocks = 2
-  Layouts = {"plain"}
-  MaxUnwind = 0
+  Mode = "revoked"
+  MaxBlocks = 3
+  Layouts = {"plain", "fee_after", "fee_before"}
+  MaxUnwind = 1
   Defect = "none"
-  MaxReload = 1
+  MaxReload = 0
 CONSTRAINT Bounded
 VIEW View
 INVARIANT TypeOK
